@@ -312,7 +312,7 @@ func rulePrefix(c *RC) *RuleResult {
 // configDefaults: Config fields that defaultConfig sets to a non-nil value.
 func (c *RC) configDefaults() map[string]bool {
 	out := map[string]bool{}
-	if dc := c.Prog.fn("defaultConfig"); dc != nil {
+	if dc := c.configDefaulter(); dc != nil {
 		for _, mem := range c.clusterFns(dc) {
 			ast.Inspect(mem.Decl.Body, func(n ast.Node) bool {
 				if kv, ok := n.(*ast.KeyValueExpr); ok {
@@ -435,7 +435,7 @@ func tableOfTerm(t *Term) string {
 func ruleOptionalCB(c *RC) *RuleResult {
 	r := &RuleResult{Rule: "G-OPTIONAL-CB", Kind: "GUARD", Doc: "callbacks that checkConfig allows to be nil are called only under their enabling fact"}
 	// derive the optional set from checkConfig: Config func fields it never requires unconditionally
-	cc := c.Prog.fn("checkConfig")
+	cc := c.configChecker()
 	if cc == nil {
 		r.unresolved("checkConfig")
 		return r
